@@ -222,7 +222,10 @@ def fold(R, res):
         ck.violation(ab["sig"], rp, "harness aborted in %s at k=%s: %s" % (what, ab["k"], ab["sig"]))
         for s, t in ab.get("pending") or []:
             ck.violation(s, rp, "%s: %s [%s]" % (s, t[:200], what))
-    for sig in res["lsan"]:
+    tracked = any(c["leaks"] for c in res["cases"]) or any(pl for _, pl, _ in res["loose"])
+    for sig in ([] if tracked else res["lsan"]):
+        # only what the allocation tracker cannot see (FILE objects, libc-internal blocks); blocks it does
+        # see were already reported above with their precise attribution
         ck.violation(sig, {"argv": job["args"], "env": job["env"], "files": job.get("files", {})},
                      "LeakSanitizer: block allocated at %s never freed [%s]" % (sig, what))
     for pv, pl, args in res["loose"]:
